@@ -1,5 +1,6 @@
 import JT.Props.C06
 import JT.Proof.GoReply
+import JT.Proof.GoLoc
 /-!
 # C06 — reply bodies as they stand in the source
 
@@ -41,5 +42,12 @@ theorem source_auth_reply_bytes (fuel : Nat) (t : model_T0x0102) (j : jt808_JTMe
     (∀ t', model_T0x0102_Parse fuel t j = .ok (t', none) → model_T0x0102_ReplyBody fuel t j =
       .ok (t', Go.be16 j.Header.SerialNumber ++ Go.be16 j.Header.ID ++ [if j.Header.TerminalPhoneNo = t'.AuthCode then 0 else 1], none)) :=
   T0x0102_ReplyBody_eq fuel t j
+
+/-- **Multimedia upload** (translated source): `T0x0801.ReplyBody` answers an upload of at least 36 bytes with the four
+bytes of its multimedia ID (the body of 0x8800: everything arrived, nothing to resend) — never a panic, whatever the
+location block and the payload contain -/
+theorem source_multimedia_reply_bytes (fuel : Nat) (t : model_T0x0801) (j : jt808_JTMessage) (h36 : 36 ≤ j.Body.length) (hf : 6 < fuel) :
+    ∃ t', model_T0x0801_ReplyBody fuel t j = .ok (t', Go.be32 (JT.Go.u32v (j.Body.take 4)), none) :=
+  T0x0801_ReplyBody_eq fuel t j h36 hf
 
 end JT.C06
